@@ -268,6 +268,10 @@ def lookupKV : List Instr := getKV ++ [.rel KV]
 def lookupFN : List Instr := getFN ++ [.rel FN]
 def lookupPARAM : List Instr := getPARAM ++ [.rel PARAM]
 
+/-- a program as it runs when every lazy it touches has been initialised before -/
+def afterFirst (p : List Instr) : List Instr :=
+  p.map (fun i => match i with | .once r _ => .once r [] | i => i)
+
 /-- The API operations of C20 and their lock programs.  The number of brief TAGS uses inside
 a formatting call depends on the envelope (one per `cbor_tags()` call); the table lists the
 shapes with 0, 1 and 2 of them, `withFMT_ranked` (Lemmas/ConcLemmas.lean) covers every `k`. -/
@@ -283,6 +287,9 @@ def apiOps : List (String × List Instr) :=
     ("known_value_lookup",     lookupKV),
     ("function_lookup",        lookupFN),
     ("parameter_lookup",       lookupPARAM),
+    -- client code using the exported macro as a `for` iterator and a `match` scrutinee with formatting in the bodies: the guard
+    -- dies with the macro's own block, so this is five formatting calls one after the other
+    ("macro_scrutinee",        withFMT 1 ++ (List.replicate 4 (afterFirst (withFMT 1))).flatten),
     ("cbor_tags",              tagsBrief),
     ("components_register_tags", tagsBrief) ]
 
